@@ -113,6 +113,36 @@ def r1_projections(repo):
     return obs
 
 
+def _flows_only_into_declared_variance(repo, call, idx, fi):
+    """argument #idx of `call` reaches only the `variance` position of TypeParameter(...) constructions in the callee"""
+    try:
+        tgt = repo.resolve_name_expr(call.func, call._module, fi)
+    except Exception:
+        tgt = None
+    from ..repo import FunctionInfo
+    if not isinstance(tgt, FunctionInfo):
+        return False
+    params = [a.arg for a in tgt.node.args.args]
+    if tgt.cls is not None and "staticmethod" not in [src(d) for d in tgt.node.decorator_list]:
+        params = params[1:]
+    if idx >= len(params):
+        return False
+    pn = params[idx]
+    uses = [x for x in ast.walk(tgt.node) if isinstance(x, ast.Name) and x.id == pn and isinstance(x.ctx, ast.Load)]
+    if not uses or any(isinstance(x, ast.Name) and x.id == pn and isinstance(x.ctx, ast.Store) for x in ast.walk(tgt.node)):
+        return False
+    for u in uses:
+        par = getattr(u, "_parent", None)
+        ok = False
+        if isinstance(par, ast.Call) and call_name(par) == "TypeParameter" and u in par.args and par.args.index(u) == 1:
+            ok = True
+        if isinstance(par, ast.keyword) and par.arg == "variance" and call_name(par._parent) == "TypeParameter":
+            ok = True
+        if not ok:
+            return False
+    return True
+
+
 def r2_contravariant(repo):
     obs = []
     uses = []
@@ -133,6 +163,9 @@ def r2_contravariant(repo):
             kind = "declaration-site variance of a built-in type constructor"
         elif isinstance(p, ast.keyword) and p.arg == "variance" and call_name(p._parent) == "TypeParameter":
             kind = "declaration-site variance of a built-in type constructor"
+        elif isinstance(p, ast.Call) and n in p.args and hasattr(p, "_module") and \
+                _flows_only_into_declared_variance(repo, p, p.args.index(n), f):
+            kind = "declaration-site variance of a built-in type constructor (through a helper that only builds TypeParameter)"
         elif f.qualname == GEN + ".gen_type_params" and isinstance(p, ast.List):
             kind = "declaration-site variance pool of gen_type_params (C17-R5)"
         elif f.qualname == "src.ir.type_utils._get_type_arg_variance":
